@@ -21,9 +21,9 @@ LEVELS = {
     "o": ["Olow", "Omid", "Ohigh", "Otop", "Oultra"],  # ordered
     "y2": ["Ya", "Yb", "Yc"],
 }
-UNSEEN = {"f": "Fzz", "g": "Gzz", "h": "Hzz", "c": "Czz", "o": "Ozz", "k": 97}
+UNSEEN = {"f1": "Qzz", "f": "Fzz", "g": "Gzz", "h": "Hzz", "c": "Czz", "o": "Ozz", "k": 97}
 # several different unseen labels per variable: sorting after, before and between the known ones
-UNSEEN_MORE = {"f": ["Fzz", "Aaf", "Fbz"], "g": ["Gzz", "Aag", "Gbz"], "h": ["Hzz", "Aah", "Hbz"],
+UNSEEN_MORE = {"f1": ["Qzz", "Aa1"], "f": ["Fzz", "Aaf", "Fbz"], "g": ["Gzz", "Aag", "Gbz"], "h": ["Hzz", "Aah", "Hbz"],
                "c": ["Czz", "Aac", "Cnn"], "o": ["Ozz", "Aao", "Onn"], "k": [97, -5, 55]}
 MODES = ["error", "warning", "silent"]
 KEY = "EVAL_UNSEEN_CATEGORIES"
@@ -33,7 +33,7 @@ ALL_FAMILIES = [
     "catstr", "catcat", "catord", "box", "box_contrast", "box_levels", "box_ordered",
     "inter", "star", "slash", "power", "group", "group_slope", "group_cat",
     "group_inter_factor", "group_multi_factor", "group_transform", "group_box",
-    "resp_level", "resp_prop", "resp_cat", "resp_none", "nointercept", "extra", "dotted",
+    "resp_level", "resp_prop", "resp_cat", "resp_none", "nointercept", "extra", "dotted", "onelevel", "npwarn",
 ]
 
 
@@ -175,6 +175,7 @@ class Gen:
         cols.append(["t", "int", trials, None])
         cols.append(["s", "int", [r.randint(0, t) for t in trials], None])
         cols.append(["y2", "str", levels_column(LEVELS["y2"][: nlev["y2"]]), None])
+        cols.append(["f1", "str", ["Only"] * n, None])  # a categorical with a single level (zero columns when reduced)
         cols.append(["m", "int", [r.randint(-3, 40) for _ in range(n)], None])  # integer-valued numeric predictor
         cols.append(["my col", "float", [round(5 + 2 * r.gauss(0, 1), 3) for _ in range(n)], None])  # needs backquotes
         cols.append(["u1", "float", [round(r.gauss(0, 1), 3) for _ in range(n)], None])
@@ -219,6 +220,8 @@ class Gen:
             opts.append(("extra", 2))
         if "dotted" in fam:
             opts.append(("dotted", 2))
+        if "npwarn" in fam:
+            opts.append(("npwarn", 2))
         kind = r.choices([o[0] for o in opts], [o[1] for o in opts])[0]
         if kind == "plain":
             if r.random() < 0.2:
@@ -227,6 +230,12 @@ class Gen:
                                     ("scale(`my col`):m", ["my col", "m"])])
                 return Item(t, used, fams=["plainint"])
             return Item(v, [v])
+        if kind == "npwarn":
+            # emits a numpy RuntimeWarning and yields NaN/inf on part of the domain
+            v2 = r.choice(NUM_COLS)
+            t, used = r.choice([(f"np.log({v})", [v]), (f"np.sqrt({v})", [v]), (f"I({v} / (m - 3))", [v, "m"]),
+                                (f"I(1 / ({v2} - {v2}))", [v2])])
+            return Item(t, used, fams=["npwarn"])
         if kind == "dotted":
             return Item(r.choice([f"tools.f({v})", f"tools.sub.g({v})", f"center(tools.f({v}))"]), [v],
                         fams=["dotted"])
@@ -298,9 +307,13 @@ class Gen:
             opts += [("box_levels", 2)]
         if "box_ordered" in fam:
             opts += [("box_ordered", 1)]
+        if "onelevel" in fam:
+            opts += [("onelevel", 1)]
         if not opts:
             opts = [("str", 1)]
         kind = r.choices([o[0] for o in opts], [o[1] for o in opts])[0]
+        if kind == "onelevel":
+            return Item("f1", ["f1"], cats=["f1"], fams=["onelevel"])
         if kind == "str":
             cand = [c for c in STR_COLS if c not in avoid] or STR_COLS
             v = r.choice(cand)
@@ -444,6 +457,8 @@ class Gen:
                 eopts += [("cat:cat", 1)]
         if "group_transform" in fam:
             eopts += [("transform", 3)]
+        if "onelevel" in fam:
+            eopts += [("onelevel", 2)]
         ek = r.choices([o[0] for o in eopts], [o[1] for o in eopts])[0]
         used = set(fcols)
         ecats = set()
@@ -465,6 +480,11 @@ class Gen:
             used.add(v)
             ecats.add(v)
             fams.add("group_cat")
+        elif ek == "onelevel":
+            etext = r.choice(["f1", "0 + f1"])
+            used.add("f1")
+            ecats.add("f1")
+            fams |= {"group_cat", "onelevel"}
         elif ek == "cat:cat":
             etext = "0 + f:c"
             used |= {"f", "c"}
